@@ -122,6 +122,10 @@ class Check:
         """Run groups, validate, attribute notes.  sig(note)->hashable signature for dedup."""
         results = sweep.run_groups(gspecs)
         br = sweep.validate_groups(results)
+        self._absorb(br, label)
+        return br
+
+    def _absorb(self, br, label, count_drift=True):
         for e in br.errors:
             self.machinery.append("%s: %s" % (label, str(e.get("error"))[-1200:]))
         self.traces += br.runs
@@ -142,13 +146,51 @@ class Check:
             if n["tag"] == mytag:
                 self.note_violation(n)
             elif n["tag"] == "M":
-                self.drift[n["name"]] = self.drift.get(n["name"], 0) + 1
+                if count_drift:
+                    self.drift[n["name"]] = self.drift.get(n["name"], 0) + 1
             elif n["tag"] == "S":
                 self.machinery.append("structural clause %s failed at line %d (%s)" % (n["name"], n["line"], label))
             else:
                 key = n["tag"] + ":" + n["name"]
                 self.other_notes[key] = self.other_notes.get(key, 0) + 1
-        return br
+
+    def replay_behaviours(self, cfg="GF_sim.cfg", num=300, depth=70, label="replay"):
+        """spec -> code: TLC -simulate behaviours of MCGradFlow stepped through the real Solver.solve (harness/loopdriver.py)."""
+        from harness import loopdriver
+
+        try:
+            behaviours, out = loopdriver.simulate(cfg, num, depth, 1000 + self.seed)
+        except Exception as e:  # noqa
+            self.machinery.append("simulate failed: %r" % (e,))
+            return
+        results = []
+        n_ok = 0
+        for b in behaviours:
+            try:
+                r = loopdriver.replay(b)
+            except Exception as e:  # noqa
+                import traceback
+
+                self.machinery.append("replay crashed: " + traceback.format_exc()[-800:])
+                continue
+            if r is None:
+                continue
+            evs, mismatch, info = r
+            n_ok += 1
+            self.case(("replay", str(info["cfg"].get("ctl")), str(info["cfg"].get("pen")), info["trials"], str(info["expected"])))
+            spec = {"runs": [], "behaviour": info}
+            if mismatch is not None:
+                # the real loop did not follow the behaviour although everything below it was scripted
+                self.add_violation(("replay.mismatch", str(mismatch["expected"][:2]), str(mismatch["observed"][:2])),
+                                   {"behaviour": info, "mismatch": mismatch}, spec)
+            if evs:
+                results.append({"events": evs, "info": {"tag": "replay", "runs": [{"run": "A", "status": str(info["expected"]), "n": 1, "m": 1}],
+                                                         "ntrials": info["trials"]}, "spec": spec})
+        if n_ok < 10:
+            self.machinery.append("only %d replayable behaviours out of %d" % (n_ok, len(behaviours)))
+        self.cov["behaviours_replayed"] = self.cov.get("behaviours_replayed", 0) + n_ok
+        br = sweep.validate_groups(results)
+        self._absorb(br, label, count_drift=False)
 
     def note_violation(self, n):
         ctx = {"clause": n["name"], "event": n["event"], "runs": n["spec"]["runs"] if n["spec"] else []}
@@ -198,6 +240,7 @@ class Check:
             "event_counts": self.event_counts, "drift": self.drift, "other_property_notes": self.other_notes,
             "known_findings_seen": self.known_seen,
         }
+        cov.update(self.cov)
         if extra_cov:
             cov.update(extra_cov)
         if self.level in ("exploration", "fault_enumeration") and cov["distinct_nontrivial"] < 2:
